@@ -515,3 +515,117 @@ func (fr *Frame) poolKind(v ssa.Value) string {
 	}
 	return ""
 }
+
+// ---- writers as ghost output streams ----
+// $wr[w] is the byte sequence written to writer w so far (length $wrlen[w]); $wrflush[w] is the length
+// at the last successful Flush. The writer identity is the interface value (box of the *bufio.Writer).
+
+func (vc *VC) wrComps() (string, string, string) {
+	vc.comp("$wr", "(Array Int (Array Int Int))")
+	vc.comp("$wrlen", "(Array Int Int)")
+	vc.comp("$wrflush", "(Array Int Int)")
+	return "$wr", "$wrlen", "$wrflush"
+}
+
+func init() {
+	wm := func(fr *Frame, cc *ssa.CallCommon) []string { a, b, c := fr.vc.wrComps(); return []string{a, b, c} }
+	nativeCalls["bufio.(*Writer).Write"] = &nativeCall{exec: func(fr *Frame, cc *ssa.CallCommon, st *State, pos token.Pos) []Term {
+		return writerWrite(fr, fr.writerID(cc.Args[0]), fr.byteSrc(cc.Args[1], st), st, pos, true)
+	}, modifies: wm, doc: "bufio.Writer.Write appends to the output stream"}
+	nativeCalls["bufio.(*Writer).WriteString"] = nativeCalls["bufio.(*Writer).Write"]
+	nativeCalls["io.Writer.Write"] = &nativeCall{exec: func(fr *Frame, cc *ssa.CallCommon, st *State, pos token.Pos) []Term {
+		return writerWrite(fr, fr.val(cc.Value).S, fr.byteSrc(cc.Args[0], st), st, pos, true)
+	}, modifies: wm, doc: "io.Writer.Write appends to the output stream"}
+	nativeCalls["bufio.(*Writer).Flush"] = &nativeCall{exec: writerFlush, modifies: wm, doc: "bufio.Writer.Flush"}
+	nativeCalls["encoding/binary.Write"] = &nativeCall{exec: binaryWrite, modifies: wm, doc: "binary.Write of a fixed-size unsigned integer"}
+}
+
+func (fr *Frame) writerID(v ssa.Value) string {
+	vc := fr.vc
+	t := fr.val(v)
+	box, _ := vc.boxFns(v.Type())
+	return fmt.Sprintf("(%s %s)", box, t.S)
+}
+
+// byteSrc describes the bytes of a []byte or string argument: (array, offset, length).
+type byteSrc struct{ arr, off, ln string }
+
+func (fr *Frame) byteSrc(v ssa.Value, st *State) byteSrc {
+	vc := fr.vc
+	t := fr.val(v)
+	if isString(v.Type()) {
+		return byteSrc{fmt.Sprintf("(str_arr %s)", t.S), "0", fmt.Sprintf("(str_len %s)", t.S)}
+	}
+	comp := vc.arrComp(types.Typ[types.Uint8])
+	return byteSrc{fmt.Sprintf("(select %s (sl_ref %s))", vc.get(st, comp), t.S), fmt.Sprintf("(sl_off %s)", t.S), fmt.Sprintf("(sl_len %s)", t.S)}
+}
+
+func writerWrite(fr *Frame, w string, src byteSrc, st *State, pos token.Pos, returnsN bool) []Term {
+	vc := fr.vc
+	vc.callees["bufio.Writer / io.Writer (trusted output-stream contract)"] = true
+	wr, wl, _ := vc.wrComps()
+	oldLen := vc.fresh("wlen")
+	vc.define(oldLen, "Int", fmt.Sprintf("(select %s %s)", vc.get(st, wl), w))
+	vc.assumeIf(fr.curReach, fmt.Sprintf("(<= 0 %s)", oldLen))
+	errv := vc.fresh("werr")
+	vc.declare(errv, "Int")
+	vc.assumeIf(fr.curReach, fmt.Sprintf("(and (<= 0 %s) (=> faultfree (= %s 0)))", errv, errv))
+	vc.needFaultfree()
+	oldArr := fmt.Sprintf("(select %s %s)", vc.get(st, wr), w)
+	a := vc.fresh("wbuf")
+	vc.declare(a, "(Array Int Int)")
+	n := vc.fresh("wn")
+	vc.declare(n, "Int")
+	// on success all bytes are appended; on failure some prefix may have been
+	vc.assumeIf(fr.curReach, fmt.Sprintf("(and (<= 0 %s) (<= %s %s) (=> (= %s 0) (= %s %s)))", n, n, src.ln, errv, n, src.ln))
+	vc.assume(fmt.Sprintf("(forall ((j Int)) (! (= (select %s j) (ite (and (<= %s j) (< j (+ %s %s))) (select %s (+ %s (- j %s))) (select %s j))) :pattern ((select %s j))))",
+		a, oldLen, oldLen, n, src.arr, src.off, oldLen, oldArr, a))
+	vc.set(st, wr, fmt.Sprintf("(store %s %s %s)", vc.get(st, wr), w, a))
+	vc.set(st, wl, fmt.Sprintf("(store %s %s (+ %s %s))", vc.get(st, wl), w, oldLen, n))
+	return []Term{{n, "Int", types.Typ[types.Int]}, {errv, "Int", types.Universe.Lookup("error").Type()}}
+}
+
+func (vc *VC) needFaultfree() {
+	if _, ok := vc.db.Sigs["faultfree"]; !ok && !vc.declared["faultfree"] {
+		vc.declared["faultfree"] = true
+		vc.decls = append(vc.decls, "(declare-const faultfree Bool)")
+	}
+}
+
+func writerFlush(fr *Frame, cc *ssa.CallCommon, st *State, pos token.Pos) []Term {
+	vc := fr.vc
+	w := fr.writerID(cc.Args[0])
+	_, wl, wf := vc.wrComps()
+	errv := vc.fresh("ferr")
+	vc.declare(errv, "Int")
+	vc.needFaultfree()
+	vc.assumeIf(fr.curReach, fmt.Sprintf("(and (<= 0 %s) (=> faultfree (= %s 0)))", errv, errv))
+	cur := vc.get(st, wf)
+	vc.set(st, wf, fmt.Sprintf("(ite (= %s 0) (store %s %s (select %s %s)) %s)", errv, cur, w, vc.get(st, wl), w, cur))
+	return []Term{{errv, "Int", types.Universe.Lookup("error").Type()}}
+}
+
+// binaryWrite: binary.Write(w, binary.BigEndian, v) for v of type uint16/uint32/uint64.
+func binaryWrite(fr *Frame, cc *ssa.CallCommon, st *State, pos token.Pos) []Term {
+	vc := fr.vc
+	mi, ok := cc.Args[2].(*ssa.MakeInterface)
+	if !ok {
+		vc.unsupportedf("binary.Write of a value of unknown static type at %s", vc.posOf(pos))
+		return []Term{vc.freshVal("err", types.Universe.Lookup("error").Type(), fr.curReach)}
+	}
+	w, _, ok2 := intInfo(mi.X.Type())
+	if !ok2 {
+		vc.unsupportedf("binary.Write of %s", mi.X.Type())
+		return []Term{vc.freshVal("err", types.Universe.Lookup("error").Type(), fr.curReach)}
+	}
+	v := fr.val(mi.X)
+	nb := w / 8
+	tmp := vc.fresh("bwbuf")
+	arr := "((as const (Array Int Int)) 0)"
+	for i := 0; i < nb; i++ {
+		arr = fmt.Sprintf("(store %s %d (mod (div %s %s) 256))", arr, i, v.S, pow2(8*(nb-1-i)))
+	}
+	vc.define(tmp, "(Array Int Int)", arr)
+	res := writerWrite(fr, fr.val(cc.Args[0]).S, byteSrc{tmp, "0", fmt.Sprint(nb)}, st, pos, false)
+	return []Term{res[1]}
+}
